@@ -14,7 +14,7 @@ from ..baseclass import ndpoly
 
 HEADER_REGEX = re.compile(
     HEADER_TEMPLATE.format(
-        version=r"\S+", names=r"(\S+)", keys=r"(\S+)", shape=r"(\S*)"
+        version=r"[^ ]+", names=r"([^ ]+)", keys=r"([^ ]+)", shape=r"([\d,]*)"
     )
 )
 
